@@ -138,6 +138,16 @@ def _check_vector(ctx, n, stats, realise=True):
         p1 = ctx.call(prs.pc, xs)
         if not p1.ok or not _close(p1.value, want_pc):
             ctx.violation("pc:sample-vs-counts", "pc(sample) != exact U-statistic of its counts", p1.describe(), str(want_pc), {"n": list(n)})
+        # the same sample as table rows, the categories being rows with missing cells (missing counts as one empty value)
+        if len(n) <= 6:
+            import pandas as pd
+            catrows = [("A", None), (None, "x"), ("A", "y"), (None, None), ("B", None), ("A", "x")]
+            rows = [catrows[i] for i in xs]
+            pt = ctx.call(prs.pc, pd.DataFrame(rows, columns=["CDR3A", "CDR3B"]))
+            ctx.count("sample_as_table_with_missing_cells")
+            if not pt.ok or not _close(pt.value, want_pc):
+                ctx.violation("pc:sample-as-table-with-missing-cells", "pc(table whose rows are the sampled categories, some cells missing) != exact U-statistic",
+                              pt.describe(), str(want_pc), {"n": list(n)})
         # a resampling loop that draws every sample into one and the same array (content replaced in place between the calls)
         buf = _BUFS.setdefault(N, np.zeros(N, dtype=np.int64))
         buf[:] = 0                       # the previous draw of the loop: a one-category sample (pc = 1) ...
@@ -192,6 +202,16 @@ def k_two(ctx, N1, N2, K):
             if not out.ok or not _close(out.value, want):
                 ctx.violation("pc:two-sample:not-unbiased", "pc(a,b) != sum n1_i n2_i/(N1 N2): its expectation is not sum p_i q_i",
                               out.describe(), str(want), {"n1": list(n1), "n2": list(n2)})
+            if cnt % 4 == 1 and K <= len(lab):
+                # categorical Series listing the same categories in different orders
+                import pandas as pd
+                ca = pd.Series(pd.Categorical(xs, categories=lab[:K]))
+                cb = pd.Series(pd.Categorical(ys, categories=list(reversed(lab[:K]))))
+                oc = ctx.call(prs.pc, ca, cb)
+                ctx.count("two_sample_categoricals")
+                if not oc.ok or not _close(oc.value, want):
+                    ctx.violation("pc:two-sample:categorical:not-unbiased", "pc(categorical a, categorical b with the categories listed in another order) != sum n1_i n2_i/(N1 N2)",
+                                  oc.describe(), str(want), {"n1": list(n1), "n2": list(n2)})
             if cnt % 3 == 0:
                 # the same two samples as two-column tables (categories are row contents) and as legacy tuples
                 import pandas as pd
